@@ -1,10 +1,10 @@
 package checks
 
 import (
-	"time"
 	"encoding/json"
 	"fmt"
 	"sort"
+	"time"
 
 	"github.com/high-moctane/mocrelay"
 
@@ -213,6 +213,87 @@ func C03(run *core.Run) {
 		if len(traces) > 3 {
 			run.Sample(traces[3].Lines[0])
 		}
+	}
+	// themed random walks over the StoreMC universe (store.go): after every step each event that was
+	// offered in this walk is looked up through each of its index keys; an event that is no longer
+	// listed must not come back through any of them (a stale index entry is state besides the retained set)
+	if ok {
+		conc := abs.NewConc()
+		var labels []string
+		var prelude []any
+		for l := range rel.Universe {
+			labels = append(labels, l)
+		}
+		sort.Strings(labels)
+		real := map[string]*mocrelay.Event{}
+		for _, l := range labels {
+			real[l] = conc.Event(rel.Universe[l], "content of "+l)
+			prelude = append(prelude, map[string]any{"op": "def", "e": rel.Universe[l]})
+		}
+		related := relatedLabels(labels, rel.Universe)
+		r := run.Rand("c03-walks")
+		walks := 400
+		if run.Thorough() {
+			walks = 4000
+		}
+		keysOf := func(e abs.Event) [][]abs.Filter {
+			out := [][]abs.Filter{{{IDs: abs.StrSet{P: true, S: []string{e.ID}}}},
+				{{Authors: abs.StrSet{P: true, S: []string{e.Author}}, Kinds: abs.IntSet{P: true, S: []int64{e.Kind}}}}}
+			for _, t := range e.Tags {
+				if len(t.Name) == 1 && t.N >= 2 {
+					out = append(out, []abs.Filter{{Tags: map[string][]string{t.Name: {t.Val}}}})
+				}
+			}
+			return out
+		}
+		var traces []tv.Trace
+		for w := 0; w < walks && run.Violations() < 8; w++ {
+			cap := 1 + r.Intn(maxCap)
+			st := newCache(cap)
+			pool := themedPool(r, labels, related)
+			offered := map[string]bool{}
+			var hist []string
+			tr := tv.Trace{Name: fmt.Sprintf("walk%d-cap%d", w, cap)}
+			for step := 0; step < 14; step++ {
+				a := pool[r.Intn(len(pool))]
+				st.Add(real[a])
+				offered[a] = true
+				hist = append(hist, a)
+				evs, err := st.Find(matchAll)
+				if err != nil {
+					break
+				}
+				listing := conc.Labels(evs)
+				in := map[string]bool{}
+				for _, l := range listing {
+					in[l] = true
+				}
+				for l := range offered {
+					for _, fs := range keysOf(rel.Universe[l]) {
+						line, err := findLine(conc, st, listing, fs)
+						if err != nil {
+							continue
+						}
+						run.Add("index_key_probes", 1)
+						for _, got := range line["res"].([]string) {
+							if !in[got] {
+								run.Violate("walk:find returns an event that is not listed "+describeFilters(fs),
+									fmt.Sprintf("cap=%d history=%v: Find(%v) returns %s, which Find([{}]) = %v does not list", cap, hist, fs, got, listing),
+									map[string]any{"cap": cap, "history": hist, "fs": fs, "events": rel.Universe})
+							}
+						}
+						if w%8 == 0 {
+							tr.Lines = append(tr.Lines, line)
+						}
+					}
+				}
+			}
+			st.Close()
+			if len(tr.Lines) > 0 {
+				traces = append(traces, tr)
+			}
+		}
+		validateFindTraces(run, prelude, traces, "walk")
 	}
 	// random histories: queries after replacement, deletion and eviction happened
 	nt, steps := 40, 60
